@@ -542,7 +542,7 @@ func runORD24(p *Prog, r *RuleRun) {
 		}
 		cc := ci.Common()
 		if cc.StaticCallee() == nil && !cc.IsInvoke() {
-			if _, isB := cc.Value.(*ssa.Builtin); !isB && fieldLoadName(cc.Value) == "reportFn" {
+			if _, isB := cc.Value.(*ssa.Builtin); !isB && isReportFnLoad(cc.Value) {
 				return CallInfo{Event: "REPORT", Primitive: true}
 			}
 		}
@@ -557,16 +557,16 @@ func runORD24(p *Prog, r *RuleRun) {
 			switch x := ins.(type) {
 			case *ssa.Select:
 				for _, st := range x.States {
-					if st.Dir == types.SendOnly && fieldLoadName(st.Chan) == "verifyCh" {
+					if st.Dir == types.SendOnly && isVerifyChLoad(st.Chan) {
 						cx.E.emit(cx, "HANDOFF", "", ins, f)
 					}
 				}
 			case *ssa.Send:
-				if fieldLoadName(x.Chan) == "verifyCh" {
+				if isVerifyChLoad(x.Chan) {
 					cx.E.emit(cx, "HANDOFF", "", ins, f)
 				}
 			case *ssa.UnOp:
-				if x.Op == token.ARROW && fieldLoadName(x.X) == "verifyCh" {
+				if x.Op == token.ARROW && isVerifyChLoad(x.X) {
 					cx.E.emit(cx, "RECV", "", ins, f)
 				}
 			}
@@ -641,7 +641,7 @@ func runORD25(p *Prog, r *RuleRun) {
 					}
 					nSel++
 					key := funcDisplay(fn) + ":hand-off"
-					okShape := len(x.States) == 1 && x.States[0].Dir == types.SendOnly && fieldLoadName(x.States[0].Chan) == "verifyCh"
+					okShape := len(x.States) == 1 && x.States[0].Dir == types.SendOnly && isVerifyChLoad(x.States[0].Chan)
 					counted := false
 					for _, b2 := range fn.Blocks {
 						for _, i2 := range b2.Instrs {
@@ -661,7 +661,7 @@ func runORD25(p *Prog, r *RuleRun) {
 					}
 					cc := x.Common()
 					if cc.StaticCallee() == nil && !cc.IsInvoke() {
-						if _, isB := cc.Value.(*ssa.Builtin); !isB && fieldLoadName(cc.Value) == "reportFn" {
+						if _, isB := cc.Value.(*ssa.Builtin); !isB && isReportFnLoad(cc.Value) {
 							bad = append(bad, "the report callback is called at "+posOf(p, ins))
 						}
 					}
@@ -710,7 +710,7 @@ func runVF21(p *Prog, r *RuleRun) {
 			for _, ins := range b.Instrs {
 				if s, ok := ins.(*ssa.Select); ok {
 					for _, st := range s.States {
-						if st.Dir == types.SendOnly && fieldLoadName(st.Chan) == "verifyCh" {
+						if st.Dir == types.SendOnly && isVerifyChLoad(st.Chan) {
 							return true
 						}
 					}
@@ -839,4 +839,32 @@ func runVF21(p *Prog, r *RuleRun) {
 		strings.Join(lost, ", ")+": the per-entry verification report is kept in a single variable that later checkpoints of the same batch overwrite: only the last checkpoint of a batch is handed to the verifier, earlier ones are neither verified nor counted as dropped")
 	r.Check(looped, funcDisplay(sl)+":handoff-per-report", pos, "the hand-off runs once per accumulated report (inside a loop)",
 		"the hand-off to the background verifier is not performed per report: a batch with several checkpoints produces a single hand-off")
+}
+
+// isVerifyChLoad: v is a load of the verifier's hand-off channel (the struct field of type chan VerificationReport).
+func isVerifyChLoad(v ssa.Value) bool {
+	u, ok := v.(*ssa.UnOp)
+	if !ok || u.Op != token.MUL {
+		return false
+	}
+	f := fieldOfAddr(u.X)
+	if f == nil {
+		return false
+	}
+	ch, ok := f.Type().Underlying().(*types.Chan)
+	return ok && strings.HasSuffix(ch.Elem().String(), "verifier.VerificationReport")
+}
+
+// isReportFnLoad: v is a load of the verifier's report callback (the struct field of the ReportFn function type).
+func isReportFnLoad(v ssa.Value) bool {
+	u, ok := v.(*ssa.UnOp)
+	if !ok || u.Op != token.MUL {
+		return false
+	}
+	f := fieldOfAddr(u.X)
+	if f == nil {
+		return false
+	}
+	sig, ok := f.Type().Underlying().(*types.Signature)
+	return ok && sig.Params().Len() == 1 && strings.HasSuffix(sig.Params().At(0).Type().String(), "verifier.VerificationReport") && sig.Results().Len() == 0
 }
